@@ -2,7 +2,7 @@
 Infrastructure shared by all property checks: locating /repo's working tree, the model
 driver, float transport, comparison, evidence, replay and the VIOLATION protocol.
 """
-import json, math, os, struct, subprocess, sys, time, hashlib, random
+import json, math, os, struct, subprocess, sys, time, hashlib, random, traceback
 
 VERIF = os.path.dirname(os.path.dirname(os.path.abspath(__file__)))
 REPO = os.environ.get("OPENSKILL_REPO", "/repo")
@@ -140,7 +140,24 @@ def build_teams(model, g, names=True):
     return teams
 
 
-def call_rate(model, teams, g):
+def game_hash(g):
+    return int(hashlib.sha1(json.dumps(jsonable(g), sort_keys=True).encode()).hexdigest()[:8], 16)
+
+
+REENTRANT_EVERY = int(os.environ.get("VERIF_REENTRANT_EVERY", "6"))
+REENTRANT_STATS = {"calls": 0}
+
+
+def nested_game(g):
+    """an unrelated game rated on the SAME model object while the outer call is in progress"""
+    teams = [[(m * 0.5 + g["beta"], s * 1.25) for (m, s) in t] for t in reversed(g["teams"])]
+    teams = teams + [teams[0][:1]]
+    n = len(teams)
+    ranks = [(i * 2 + 1) % n if n % 2 else (i + 1) % n for i in range(n)]
+    return teams, ranks
+
+
+def call_rate(model, teams, g, reentrant=None):
     kw = {}
     if g["oc"][0] == "R":
         kw["ranks"] = list(g["oc"][1])
@@ -150,7 +167,31 @@ def call_rate(model, teams, g):
         kw["tau"] = g["tauopt"]
     if g["lsopt"] is not None:
         kw["limit_sigma"] = g["lsopt"]
-    return model.rate(teams, **kw)
+    if reentrant is None:
+        reentrant = REENTRANT_EVERY > 0 and game_hash(g) % REENTRANT_EVERY == 0
+    if not reentrant:
+        return model.rate(teams, **kw)
+    # Deterministic interleaving (C14, and every property of rate under concurrent use): while the
+    # outer call is inside _compute, the gamma callback runs a complete, unrelated rate() on the same
+    # model object, as a second thread scheduled at that point would.  On code that keeps no per-call
+    # state on the model the outer result is bit-identical to the plain call.
+    REENTRANT_STATS["calls"] += 1
+    orig = model.gamma
+    state = {"n": 0, "at": 1 + game_hash(g) // 7 % 3, "busy": False}
+
+    def cb(c, k, mu, s2, team, rank):
+        state["n"] += 1
+        if state["n"] == state["at"] and not state["busy"]:
+            state["busy"] = True
+            nt, nr = nested_game(g)
+            inner = [[model.rating(mu=m, sigma=s) for (m, s) in t] for t in nt]
+            model.rate(inner, ranks=nr, tau=g["beta"] / 7, limit_sigma=not g["ls"])
+        return orig(c, k, mu, s2, team, rank)
+    model.gamma = cb
+    try:
+        return model.rate(teams, **kw)
+    finally:
+        model.gamma = orig
 
 
 def run_impl_rate(g, cls=None):
@@ -363,12 +404,22 @@ def corr_games(res, games, kind_on_mismatch, label, drv=None):
         if mm:
             res.fail(kind_on_mismatch, "%s: implementation and model disagree: %s" % (label, mm),
                      dict(type="game", game=g))
+        elif model[0] == "OK":
+            # branch statistics from the model's own output: kappa-floor hits, clamp hits
+            sc = prior_scales(g)
+            rk = math.sqrt(g["kappa"])
+            flat = [x for t in sc for x in t]
+            for t in model[1]:
+                for (pid, m_, s_) in t:
+                    if 0 <= pid < len(flat) and flat[pid] > 0 and abs(s_ / flat[pid] - rk) <= 1e-12 * rk:
+                        res.count("kappa_floor_hits")
         results.append((g, impl, model))
     return results
 
 
 def describe(res, g):
     res.count("kind_" + g["kind"])
+    res.count("gamma_" + g["gamma"][0])
     res.count("teams_%d" % len(g["teams"]))
     res.count("ties" if has_ties(g) else "no_ties")
     res.count("outcome_" + g["oc"][0])
